@@ -38,7 +38,7 @@ def file_base_ok(w):
     return re.fullmatch(r"[a-z][a-z0-9_]*", w) is not None
 
 
-ALL_POS = ("get", "create", "update", "route", "rpc", "file")
+ALL_POS = ("get", "create", "update", "route", "query", "rpc", "file")
 
 
 def coll(w):
@@ -71,6 +71,15 @@ def build_safe_api(w, include=ALL_POS):
         # routing parameters WITHOUT a path template: the key on the wire is the proto field path itself (top-level and nested)
         rb = f.msg("RouteBareRequest"); rb.field(w, "string", 1); rb.field("scope", "message", 2, type_name=inner)
         s.method("RouteBare", rb, thing, routing=[(w, None), ("scope." + w, None)])
+    if "query" in include:
+        # the word as a REST QUERY parameter: top-level (annotated REQUIRED: the transport keeps a table of such fields, keyed by
+        # their JSON names, to send unset ones with their default), nested (`scope.<word>`), and next to a body field
+        q = f.msg("ListThingsRequest"); q.field("parent", "string", 1); q.field(w, "string", 2, required=True)
+        q.field("scope", "message", 3, type_name=inner); q.field("page_size", "int32", 4, required=True)
+        s.method("ListThings", q, thing, http=("get", "/v1/{parent=shelves/*}/things"))
+        sr = f.msg("SearchThingsRequest"); sr.field("parent", "string", 1); sr.field("thing", "message", 2, type_name=thing)
+        sr.field(w, "string", 3); sr.field("scope", "message", 4, type_name=inner, required=True)
+        s.method("SearchThings", sr, thing, http=("post", "/v1/{parent=shelves/*}/things:search"), body="thing")
     rpc_name = cap(w) if (re.fullmatch(r"[A-Za-z][A-Za-z0-9]*", w) and "rpc" in include) else None
     if rpc_name:
         s.method(rpc_name, g, thing)
@@ -80,7 +89,8 @@ def build_safe_api(w, include=ALL_POS):
 
 
 POS_LABEL = {"get": "top-level field, http path variable, flattened parameter", "create": "nested field, http body",
-             "update": "dotted flattened parameter (terminal)", "route": "explicit routing field", "rpc": "rpc name", "file": "proto file name"}
+             "update": "dotted flattened parameter (terminal)", "route": "explicit routing field",
+             "query": "http query parameter (required, nested, beside a body)", "rpc": "rpc name", "file": "proto file name"}
 
 
 def emitted_ok(f):
@@ -101,7 +111,7 @@ def emitted_ok(f):
     return None
 
 
-CALL_POS = ("get", "create", "update", "route", "rpc")
+CALL_POS = ("get", "create", "update", "route", "query", "rpc")
 
 
 def working_positions(ctx, w):
@@ -165,6 +175,74 @@ def check_grpc_calls(ctx, w, kind, sess, calls, payload, codec):
     return True
 
 
+def _tmpl_match(tmpl, path):
+    """bind the variables of an http path template (original proto field paths) on a literal request path -> {var: value} | None"""
+    rx, i, names = "", 0, []
+    for m in re.finditer(r"\{([^}=]+)(?:=([^}]*))?\}", tmpl):
+        rx += re.escape(tmpl[i:m.start()])
+        segs = (m.group(2) or "*").split("/")
+        rx += "(%s)" % "/".join(".+" if x == "**" else "[^/]+" if x == "*" else re.escape(x) for x in segs)
+        names.append(m.group(1)); i = m.end()
+    rx += re.escape(tmpl[i:])
+    m = re.fullmatch(rx, path)
+    return dict(zip(names, m.groups())) if m else None
+
+
+def _resolve(desc, dotted):
+    """a dotted key of ORIGINAL names (proto or JSON spelling, per segment) -> list of proto names; None when a segment names no field"""
+    out = []
+    for seg in dotted.split("."):
+        fd = next((x for x in desc.fields if seg in (x.name, x.json_name)), None) if desc is not None else None
+        if fd is None:
+            return None
+        out.append(fd.name); desc = fd.message_type
+    return out
+
+
+def rest_wire_request(codec, full, rec, tmpl, body):
+    """what a server reads from one recorded HTTP request under the rpc's http rule: path variables + query parameters + body,
+    every key resolved under the INPUT descriptor by its original proto/JSON name -> (request JSON by proto names | None, [(kind, text)])"""
+    import urllib.parse
+    desc = codec.pool.FindMessageTypeByName(full)
+    problems, merged = [], {}
+
+    def put(names, v):
+        d = merged
+        for n in names[:-1]:
+            d = d.setdefault(n, {})
+        d[names[-1]] = v
+    bound = _tmpl_match(tmpl, urllib.parse.unquote(rec["path"]))
+    if bound is None:
+        problems.append(("http-path", f"path {rec['path']!r} does not match {tmpl!r}"))
+    for var, val in (bound or {}).items():
+        put(_resolve(desc, var), val)
+    for k, v in urllib.parse.parse_qsl(rec["query"], keep_blank_values=True):
+        if k.startswith("$"):
+            continue                      # system parameters ($alt)
+        names = _resolve(desc, k)
+        if names is None:
+            low = [x.name for x in desc.fields if x.json_name.lower() == k.lower() and x.json_name != k]
+            problems.append(("http-query-case" if low else "http-query", f"query parameter {k!r} (of {rec['query']!r}) names no field of {full}"))
+            continue
+        put(names, v)
+    if body and (rec["body"] or body != "*"):
+        try:
+            bj = json.loads(rec["body"] or "null")
+        except ValueError:
+            bj = None
+        if not isinstance(bj, dict):
+            problems.append(("http-body", f"body {rec['body'][:80]!r} is not a JSON object"))
+        elif body == "*":
+            merged.update(bj)
+        else:
+            merged[body] = bj
+    try:
+        return codec.normal(full, merged), problems
+    except Exception as e:  # json_format.ParseError: a name that is not a field of the message (body), a value of the wrong kind
+        problems.append(("http-request", f"{type(e).__name__}: {str(e)[:160]}"))
+        return None, problems
+
+
 def check_safe(ctx, w, quick=False):
     from gapic.utils import to_snake_case
     include = working_positions(ctx, w)
@@ -209,18 +287,33 @@ def check_safe(ctx, w, quick=False):
         calls.append({"tag": "rpc name", "method": kw_name, "mode": "request-instance", "py_request": T(rpc_name),
                       "request_b64": codec.encode_b64(f"{PKG}.GetThingRequest", {w: "x"}), "expect": (f"{PKG}.GetThingRequest", {w: "x"}),
                       "path": f"/{PKG}.Library/{rpc_name}"})
+    lt, st_ = f"{PKG}.ListThingsRequest", f"{PKG}.SearchThingsRequest"
+    ok200 = [{"status": 200, "body": "{}"}]
+    R = lambda tag, meth, m, full, val, tmpl, body=None: {
+        "tag": tag, "method": meth, "mode": "request-instance", "py_request": T(m), "request_b64": codec.encode_b64(full, val),
+        "script": ok200, "expect": (full, val), "http": (tmpl, body)}
     rest_calls = [
-        {"tag": "REST path variable", "method": "get_thing", "mode": "request-instance", "py_request": T("GetThing"),
-         "request_b64": codec.encode_b64(f"{PKG}.GetThingRequest", {w: coll(w) + "/t1", "other": "o"}), "script": [{"status": 200, "body": "{}"}]},
-        {"tag": "REST body", "method": "create_thing", "mode": "request-instance", "py_request": T("CreateThing"),
-         "request_b64": codec.encode_b64(f"{PKG}.CreateThingRequest", {"parent": "shelves/s", w: thing_val}), "script": [{"status": 200, "body": "{}"}]},
+        R("REST path variable", "get_thing", "GetThing", f"{PKG}.GetThingRequest", {w: coll(w) + "/t1", "other": "o"}, "/v1/{%s=%s/*}" % (w, coll(w))),
+        R("REST body", "create_thing", "CreateThing", f"{PKG}.CreateThingRequest", {"parent": "shelves/s", w: thing_val}, "/v1/{parent=shelves/*}/things", w),
+        # the word as a query parameter: required and set / required and left unset (the transport sends it with its default) /
+        # nested / beside a body
+        R("REST query parameter (required, set)", "list_things", "ListThings", lt, {"parent": "shelves/s", w: "q v&1", "scope": {w: "sq"}, "page_size": 3},
+          "/v1/{parent=shelves/*}/things"),
+        R("REST query parameter (required, unset)", "list_things", "ListThings", lt, {"parent": "shelves/s"}, "/v1/{parent=shelves/*}/things"),
+        R("REST query parameter (nested only)", "list_things", "ListThings", lt, {"parent": "shelves/s", "scope": {w: "sq"}, "page_size": 1},
+          "/v1/{parent=shelves/*}/things"),
+        R("REST query parameter beside a body", "search_things", "SearchThings", st_, {"parent": "shelves/s", "thing": thing_val, w: "qv", "scope": {w: "sq"}},
+          "/v1/{parent=shelves/*}/things:search", "thing"),
+        R("REST query parameter beside a body (unset)", "search_things", "SearchThings", st_, {"parent": "shelves/s", "thing": thing_val},
+          "/v1/{parent=shelves/*}/things:search", "thing"),
     ]
-    need = {"get_thing": "get", "create_thing": "create", "update_thing": "update", "route": "route", "route_bare": "route"}
+    need = {"get_thing": "get", "create_thing": "create", "update_thing": "update", "route": "route", "route_bare": "route",
+            "list_things": "query", "search_things": "query"}
     calls = [c for c in calls if need.get(c["method"], "rpc") in include]
     rest_calls = [c for c in rest_calls if need.get(c["method"], "rpc") in include]
     root = genrun.materialise(res)
     try:
-        clean = lambda cs: [{k: v for k, v in c.items() if k not in ("tag", "expect", "header", "path")} for c in cs]
+        clean = lambda cs: [{k: v for k, v in c.items() if k not in ("tag", "expect", "header", "path", "http")} for c in cs]
         out = libhost.run(root, [
             {"op": "import_all", "package": loc["package"]},
             {"op": "grpc_session", "client": loc["client"], "transport": loc["grpc"], "async": False, "calls": clean(calls)},
@@ -253,12 +346,22 @@ def check_safe(ctx, w, quick=False):
             ctx.fail(f"position:{c['tag']}", f"word {w!r} as {c['tag']}: {r_.get('raised')}: {r_.get('msg', '')[:160]}", pl)
             continue
         rec = r_["server"][0]
+        # the whole request as a server reads it: every path variable, query parameter and body member must be addressed by an
+        # ORIGINAL proto/JSON name of the input message, and together they must say what the caller meant
+        full, want = c["expect"]
+        got, problems = rest_wire_request(codec, full, rec, *c["http"])
+        for kind, text in problems:
+            key = "rest-required-query-key-lowercased" if kind == "http-query-case" else f"wire:{kind}"
+            ctx.fail(key, f"word {w!r} as {c['tag']}: {text}", pl)
+        if got is not None and got != codec.normal(full, want):
+            ctx.fail("wire:http-request", f"word {w!r} as {c['tag']}: {rec['verb']} {rec['path']}?{rec['query']} body {rec['body'][:120]!r} reads as "
+                                          f"{got}, caller meant {codec.normal(full, want)}", pl)
         if c["tag"] == "REST path variable":
             if rec["path"] != f"/v1/{coll(w)}/t1":
                 ctx.fail("wire:http-path", f"word {w!r}: REST path {rec['path']!r}", pl)
             if "other=o" not in rec["query"]:
                 ctx.fail("wire:http-query", f"word {w!r}: REST query {rec['query']!r}", pl)
-        else:
+        elif c["tag"] == "REST body":
             body = json.loads(rec["body"] or "{}")
             want = codec.normal(f"{PKG}.Thing", thing_val)
             want_json = {json_name(k): ({json_name(kk): vv for kk, vv in v.items()} if isinstance(v, dict) else v) for k, v in want.items()}
@@ -430,6 +533,21 @@ def t2(ctx):
         ctx.case(distinct_key=["snake", s]); ctx.traces += 1
         if mo["r"] != to_snake_case(s):
             ctx.disagree("T2:c12.to_snake_case", f"{s!r}: model {mo['r']!r} vs impl {to_snake_case(s)!r}", {"ident": s})
+    # camel case (the `camel_case` filter keys the REST transport's table of REQUIRED query fields by the ATTRIBUTE name of the field):
+    # every word as attribute and bare, multi-word names with the suffix, separators at either end, generated identifiers
+    from gapic.utils import to_camel_case
+    cam = [attr(w) for w in ws] + ws + [attr(w) + "_" for w in ws[:8]] + ["page_size", "display_name_", "_x", "x__y", "a-b", "a_-b_", "-", "_", ""]
+    for _ in range(ctx.n(150, 2500)):
+        k = r.randint(1, 4)
+        cam.append(r.pick(["", "", "_"]) + "_".join(r.pick(ws + ["page", "size", "v2", "id", "x"]) for _ in range(k)) + r.pick(["", "", "_", "__"]))
+    cam += idents[: ctx.n(100, 1500)]
+    cm = ctx.driver.ask([{"op": "c12.camel", "s": s} for s in cam])
+    for s, mo in zip(cam, cm):
+        ctx.case(distinct_key=["camel", s]); ctx.traces += 1
+        if mo["r"] != to_camel_case(s):
+            ctx.disagree("T2:c12.to_camel_case", f"{s!r}: model {mo['r']!r} vs impl {to_camel_case(s)!r}", {"ident": s})
+        if mo["json_name"] != json_name(s):
+            ctx.disagree("T2:c12.json_name", f"{s!r}: model {mo['json_name']!r} vs ToJsonName {json_name(s)!r}", {"ident": s})
     # proto file names: through API.build
     invalid = sorted(set(keyword.kwlist) | {"metadata", "retry", "timeout", "request"})
     cases = [[w] for w in invalid if file_base_ok(w)][: ctx.n(8, 100)] + [["class", "class_"], ["class_", "class"], ["a.b", "a_b"], ["import", "import_", "import__"]]
@@ -463,14 +581,15 @@ def t2(ctx):
 def run(ctx):
     ctx.rule = ("finite space: every word of RESERVED_NAMES ∪ keyword.kwlist (+ soft keywords and control-parameter names) x positions "
                 "{top-level field, nested field, flattened parameter (top-level, dotted terminal, dotted non-terminal), http path variable "
-                "(top-level, dotted), http body, routing field, rpc name, proto file name}; quick samples words, thorough enumerates all; "
+                "(top-level, dotted), http body, http query parameter (REQUIRED set/unset, nested, beside a body), routing field, rpc name, proto file name}; "
+                "every REST request is read back whole (path variables + query + body under the input descriptor); quick samples words, thorough enumerates all; "
                 "distinct by (word, position)")
     t2(ctx)
     ws = words()
     res, kw = tables()
     r = ctx.rng("words")
     if ctx.quick:
-        sample = ["class", "import", "format", "__peg_parser__"] + [r.pick(ws) for _ in range(2)]     # `__peg_parser__`: findings/C12.json
+        sample = ["class", "import", "format", "__peg_parser__", "None"] + [r.pick(ws) for _ in range(2)]     # `__peg_parser__`, `None`: findings/C12.json
     else:
         sample = ws
         ctx.exhaustive = True
@@ -516,8 +635,9 @@ CLAIM = dict(
          "carries exactly one underscore exactly for reserved words, suffixing is stable and injective (under a stated hypothesis with "
          "counterexample), URI variables resolve at any depth, implicit-header and flattened keys resolve exactly under stated conditions "
          "(counterexample theorems for the rest), JSON names ignore the suffix, keyword RPC names and invalid proto file names get one "
-         "underscore. Tie: T1 bridge of the four tables and the snake_case regexes; T2 of every naming function over the whole tables; "
-         "T3 per word: generate, import, call over loopback gRPC/HTTP and check attribute names and wire names (exhaustive in thorough).",
+         "underscore, the REST required-field key `camel_case(attribute)` is the JSON name for every reserved word without a capital (counterexample: `None`). Tie: T1 bridge of the four tables and the snake_case regexes; T2 of every naming function over the whole tables; "
+         "T3 per word: generate, import, call over loopback gRPC/HTTP and check attribute names and wire names, REST requests reassembled from path, "
+         "query string and body under the original proto/JSON names (exhaustive in thorough).",
     technique="Lean 4 theorems + `decide` over translator-bridged finite tables; differential T2; exhaustive T3 enumeration word x position",
     design="7.12",
     note="Module-alias collisions across packages are exercised by T3 of C01/C02 profiles only; no theorem. Dotted http path variables with a "
